@@ -87,7 +87,8 @@ impl<'e> RandFiller<'e> {
     }
 
     fn stamp(&mut self, c: String) -> String {
-        let c = if self.cfg.serial_comments {
+        // (every other comment keeps its own text: a numbered comment never is `/**/` or `//`)
+        let c = if self.cfg.serial_comments && self.e.chance(1, 2) {
             self.serial += 1;
             if c.starts_with("//") {
                 format!("{} n{}", c, self.serial)
